@@ -46,17 +46,20 @@ pub struct IoFaultSpec {
 
 #[derive(Clone, Debug, Serialize, Deserialize, PartialEq)]
 pub struct Corruption {
-    /// Apply before this step index (steps.len() = after the last step).
-    pub before_step: usize,
     /// File path relative to the database root.
     pub file: String,
-    /// "flip" (bit `bit` of byte `pos`), "byte" (overwrite with `val`), "zero512", "truncate"
+    /// "flip" (bit `bit` of byte `pos`), "byte" (overwrite with `val`), "zero512" (zero-filled
+    /// sector containing `pos`), "truncate" (to `pos` bytes)
     pub kind: String,
     pub pos: u64,
     pub bit: u8,
     pub val: u8,
-    /// Reopen the database right after corrupting (cold read) instead of keeping it open.
-    pub reopen: bool,
+    /// 0 = corrupt, then open the database (cold read);
+    /// 1 = open, query every table (blocks cached), corrupt, query again;
+    /// 2 = open, corrupt before any read, query.
+    pub mode: u8,
+    /// Let a compaction pass run over the corrupted data before the final queries.
+    pub compact_after: bool,
 }
 
 #[derive(Clone, Debug, Default, Serialize, Deserialize, PartialEq)]
@@ -114,6 +117,10 @@ pub struct Violation {
     pub at: Option<usize>,
     /// Normalised class signature used for minimisation and known-finding matching.
     pub sig: String,
+    /// A fully explicit case that reproduces this violation (when the run derived part of its
+    /// fault plan itself, e.g. enumerated crash points).
+    #[serde(default)]
+    pub pinned: Option<Box<Case>>,
 }
 
 impl Violation {
@@ -124,7 +131,12 @@ impl Violation {
             sig: format!("{prop}/{oracle}"),
             detail,
             at,
+            pinned: None,
         }
+    }
+    pub fn pin(mut self, case: Case) -> Violation {
+        self.pinned = Some(Box::new(case));
+        self
     }
     pub fn with_sig(mut self, extra: &str) -> Violation {
         self.sig = format!("{}/{}/{}", self.prop, self.oracle, extra);
